@@ -221,7 +221,7 @@ def records_for(inst, seed=0):
     scale = float(inst.get("scale") or SCALES[(salt + seed) % len(SCALES)])
     ev = int(inst["ev"]) if "ev" in inst else EXPS[int(rng.integers(0, len(EXPS)))]
     mes = inst.get("mes") or [MES[int(rng.integers(0, len(MES)))] for _ in inst["objs"]]
-    inst = dict(inst, scale=scale, ev=ev, mes=list(mes))
+    inst = dict(inst, scale=scale, ev=ev, mes=list(mes), tabs=bool(inst.get("tabs", True)))
     geo = {k: inst[k] for k in ("h", "w", "u", "org", "b")}
     mask, uv = c13.build(geo, (scale, scale))
     P, K = len(inst["u"]), len(inst["b"])
@@ -490,20 +490,25 @@ def records_for(inst, seed=0):
     # both formalisms give the same reconstruction when F + H is well conditioned
     if recon.get("mapping") is not None and recon.get("w_tilde") is not None:
         (sm, mm, fh, dm_, fm_), (sw, mw, _, dw_, fw_) = recon["mapping"], recon["w_tilde"]
+        # well conditioned = the a-priori float perturbation of the solution, ||(F+H)^-1|| * 1e-12 * (magnitude of the terms summed
+        # in D), is below 1e-7 of the solution itself (an exactly vanishing D gives pure rounding noise: nothing to compare)
         with np.errstate(all="ignore"):
-            cond = float(np.linalg.cond(fh)) if fh.size else float("inf")
-        if np.isfinite(cond) and cond < 1e6:
-            # reconstructions in the units of the integer mapping matrices; the floor keeps float noise of an exactly
-            # vanishing solution (D = 0 on the lattice) from being magnified
+            sv_ = np.linalg.svd(fh, compute_uv=False) if fh.size else np.zeros(1)
+            cond = float(sv_.max() / sv_.min()) if sv_.min() > 0 else float("inf")
+        mreal = np.hstack([np.asarray(lo.mapping_matrix, dtype=float) for lo in objs])
+        dscale = float(np.abs(mreal).sum(axis=0).max()) * float(np.sum(np.abs(vc.real) / nz.real ** 2 + np.abs(vc.imag) / nz.imag ** 2))
+        noise = 1e-12 * dscale / float(sv_.min()) if sv_.min() > 0 else float("inf")
+        if np.isfinite(cond) and cond < 1e6 and float(np.abs(sm).max()) > 0 and noise <= 1e-7 * float(np.abs(sm).max()):
+            # reconstructions in the units of the integer mapping matrices
             sm, sw = sm / cs, sw / cs
-            big = max(1e-6 * sv, float(np.abs(sm).max()), float(np.abs(mm).max()))
-            g = 10.0 ** 7 / big
+            gs = 10.0 ** 7 / float(np.abs(sm).max())
+            gm = 10.0 ** 7 / max(1e-6 * sv, float(np.abs(mm).max()))
 
             def fl(a):
                 a = np.asarray(a, dtype=complex)
-                return np.rint(np.concatenate([a.real, a.imag]) * g).astype(np.int64).tolist()
+                return np.rint(np.concatenate([a.real, a.imag]) * gm).astype(np.int64).tolist()
             recs.append({"api": "pair", "objs": robjs, "raised": False, "err": "", "tol": 20, "D_m": dm_, "F_m": fm_, "D_w": dw_, "F_w": fw_,
-                         "sig_m": np.rint(sm * g).astype(np.int64).tolist(), "sig_w": np.rint(sw * g).astype(np.int64).tolist(),
+                         "sig_m": np.rint(sm * gs).astype(np.int64).tolist(), "sig_w": np.rint(sw * gs).astype(np.int64).tolist(),
                          "map_m": fl(mm), "map_w": fl(mw)})
     for r in recs:
         r["_inst"] = inst
@@ -603,7 +608,7 @@ def validate(ctx, records, tag, chunk=None):
     import concurrent.futures as cf
 
     if chunk is None:
-        chunk = min(3000, max(500, -(-len(records) // 16)))
+        chunk = min(3000, max(1200, -(-len(records) // 12)))
     insts_of = {}
     for n, r in enumerate(records):
         r["id"] = n
@@ -637,14 +642,14 @@ def validate(ctx, records, tag, chunk=None):
 def run(ctx):
     quick = ctx.quick
     if quick:
-        runs = [("all", [(1, 1), (1, 2), (2, 1), (2, 2)], [(0, 0)], [-1, 0, 1, 2], [0, 1, 2], 4, "all", 1),
+        runs = [("all", [(1, 1), (1, 2), (2, 1), (2, 2)], [(0, 0)], [-1, 0, 1, 2], [0, 1, 2], 4, "all", 2),
                 ("wide", [(2, 3), (3, 3)], [(1, -1)], [0, 1, 2], [0, 2], 4, "few", 1)]
         n_random = 150
     else:
-        runs = [("all", [(1, 1), (1, 2), (2, 1), (2, 2), (1, 3), (3, 1)], [(0, 0)], [-2, -1, 0, 1, 2], [0, 1, 2], 4, "all", 3),
-                ("all23", [(2, 3), (3, 2)], [(0, 0), (1, 1)], [-1, 0, 1, 2], [0, 2], 4, "all", 2),
-                ("all33", [(3, 3)], [(0, 0)], [0, 1, 2], [0, 2], 4, "all", 1),
-                ("wide", [(3, 4), (4, 4)], [(1, -1), (0, 0)], [0, 1, 2], [0, 1, 2], 4, "few", 2)]
+        runs = [("all", [(1, 1), (1, 2), (2, 1), (2, 2), (1, 3), (3, 1)], [(0, 0)], [-2, -1, 0, 1, 2], [0, 1, 2], 4, "all", 2),
+                ("all23", [(2, 3), (3, 2)], [(0, 0)], [-1, 0, 1, 2], [0, 2], 4, "all", 1),
+                ("all33", [(3, 3)], [(0, 0)], [0, 1], [1], 4, "all", 1),
+                ("wide", [(3, 4), (4, 4)], [(1, -1)], [0, 1, 2], [0, 2], 4, "few", 1)]
         n_random = 2500
     ctx.bounds = {"tlc_runs": [{"name": r[0], "shapes": r[1], "origins_half_px": r[2], "multipliers_1_baseline": r[3],
                                 "multipliers_2_to_4_baselines": r[4], "max_baselines": r[5], "masks": r[6],
@@ -656,7 +661,7 @@ def run(ctx):
                   "(zero / repeated / opposite), data -5..5, noise 2^-1..2^1 per part (60% re = im), lists m, mm, mf, fm, f, fmf, mmm, meshes "
                   "1x2..3x3, sub-size 1-2, function entries -3..3, diagonal term 1/4..3/4",
                   "pixel_scales": SCALES, "data_scales_log2": EXPS, "function_list_scales_log2": MES, "alpha_tolerance": c13.TOL,
-                  "pair_tolerance": "2e-6 of the largest entry, compared when cond(F + H) < 1e6"}
+                  "pair_tolerance": "2e-6 of the largest entry, compared when cond(F + H) < 1e6 and the float perturbation bound of the solution is below 1e-7 of it"}
     ctx.exhaustive = True
     all_insts = []
     import concurrent.futures as cf
@@ -674,6 +679,9 @@ def run(ctx):
         all_insts.extend(insts)
     for n, inst in enumerate(all_insts):
         inst["salt"] = n
+        # the tables depend on (mask, baselines, real noise) only: the quick tier judges the utility functions and
+        # Interferometer.w_tilde on every second enumerated instance (and on every random one)
+        inst["tabs"] = (not quick) or n % 2 == 0
     ctx.replayed = len(all_insts)
     rng = np.random.default_rng(ctx.seed)
     rnd = random_instances(rng, n_random)
